@@ -179,7 +179,7 @@ def _showv(v):
     return "absent" if v is None else (f"the isotherm's own {v[len(STORED):-1]}" if isinstance(v, str) and v.startswith(STORED) else repr(v))
 
 
-def r_pin_interpreted(ctx: Ctx, model):
+def r_pin_interpreted(ctx: Ctx, model, prop="C15", rule="R-pin", check="pin"):
     """every entry point is run with recording stub isotherms (sample and, for alpha-s, reference) up to the point where the numerical
     routine is entered; each recorded read must name the complete representation of every quantity it supplies or returns"""
     import sympy as sp
@@ -244,11 +244,18 @@ def r_pin_interpreted(ctx: Ctx, model):
                     raise AnalysisError(f"{short}(branch={branch!r}): no isotherm read was recorded before the numerical routine")
                 for role, method, rkw, npos in o.value:
                     nreads += 1
+                    if check == "branch":
+                        # the analysis is of the branch the caller named: every read of the sample isotherm asks for that branch
+                        if role != "sample" or method not in ("pressure", "loading"):
+                            continue
+                        ctx.ob(rkw.get("branch") == branch,
+                               Finding(f"{prop}.{rule}", fi.where, f"{short}|{method}@{role}|branch-not-threaded",
+                                       f"{short}(branch={branch!r}) reads {role}.{method}(branch={rkw.get('branch', '<omitted>')!r}, ...): the analysis "
+                                       "must be made on the branch the caller named"), nontrivial_key=("branch", short, branch, method))
+                        continue
                     problems = _pinned_sides(method, rkw)
-                    if rkw.get("branch") is None and npos == 0:
-                        pass        # (branch selection is C03's subject)
                     site = f"{short}|{method}@{role}"
-                    ctx.ob(not problems, Finding("C15.R-pin", fi.where, f"{site}|" + ";".join(x.split(" (")[0] for x in problems),
+                    ctx.ob(not problems, Finding(f"{prop}.{rule}", fi.where, f"{site}|" + ";".join(x.split(" (")[0] for x in problems),
                                                  f"{short}(branch={branch!r}) reads {role}.{method}({', '.join(f'{k}={_showv(v) if isinstance(v, str) or v is None else I.describe(v)}' for k, v in sorted(rkw.items()))}): "
                                                  + "; ".join(problems) + " - the numbers entering the analysis depend on how the isotherm happens to be stored"),
                            nontrivial_key=("read", short, branch, role, method),
@@ -332,6 +339,9 @@ def run(ctx: Ctx):
                        sample={"rule": "R-pin", "site": f"{fi.short}:{node.lineno}", "call": kind, "pinned": {k: _show(v) for k, v in kw.items()}})
     ctx.floor("isotherm read sites in characterisation", nsites, 12)
     r_pin_interpreted(ctx, model)
+    # "... or a reference isotherm it is compared with": the reference area alpha-s scales with is computed from the REFERENCE isotherm
+    from .C14 import r_alpha_reference
+    r_alpha_reference(ctx, model, prop="C15", rule="R-pin")
     from .C19 import r_isosteric_wrapper
     ctx.rule("R-pin (isosteric): isotherms stored in three different representations are all read in the representation of the first "
              "(interpreted on isosteric_enthalpy with recording stub isotherms)")
